@@ -1,6 +1,7 @@
 SPECIFICATION Spec
 CONSTANTS
   PreL = {p1}
+  HookL = {}
   ThrL = {l2}
   PreCbT = {}
   PreCbF = {}
